@@ -623,7 +623,8 @@ var nodeCommitFirst = func() bool {
 // ---- ops ----
 
 type lctx struct {
-	c *lchain
+	c   *lchain
+	tmp string
 }
 
 func parseI64List(s string) ([]int64, bool) {
@@ -667,6 +668,24 @@ func (l *lctx) op(f []string, m map[string]string) string {
 		}
 		l.c = c
 		return "ok"
+	case "l.hand":
+		if l.c == nil {
+			return "bad-op"
+		}
+		h, o1 := num("h")
+		trust, o2 := num("trust")
+		boot, o3 := num("boot")
+		if !(o1 && o2 && o3) || boot > 9 || (m["seen"] != "ok" && m["seen"] != "fail") || (m["switch"] != "ok" && m["switch"] != "fail") {
+			return "bad-op"
+		}
+		r := runProvider(l.c, trust, lie{}, lie{}, false, uint64(h))
+		for try := 0; try < 2 && r.stage != ""; try++ {
+			r = runProvider(l.c, trust, lie{}, lie{}, false, uint64(h))
+		}
+		if r.stage != "" {
+			return "err@" + r.stage
+		}
+		return handOverRun(l.c, h, r, m["seen"] == "fail", int(boot), m["switch"] == "fail", l.tmp)
 	case "l.sync", "l.boot":
 		if l.c == nil {
 			return "bad-op"
